@@ -180,8 +180,9 @@ def sweep(run, thorough):
             line = f"; .arch riscv64 ; .feature {feat} ; {mn} f3, {txt}"
             reqs.append("cl " + line)
             meta.append((line, (0b1111000 << 25) | (fmt << 25) | (1 << 20) | (idx << 15) | (3 << 7) | 0b1010011))
-        for val in (0.3, 5.0, 1.1, -2.0, 0.0, 65537.0, 0.03125):
-            line = f"; .arch riscv64 ; .feature {feat} ; {mn} f3, {val!r}"
+        # non-constants, among them doubles that only ROUND to a table constant
+        for val in (0.3, 5.0, 1.1, -2.0, 0.0, 65537.0, 0.03125, "0.2500000001", "1.00000001", "0.12500000001", "2.0000000000000004", "65535.999999999"):
+            line = f"; .arch riscv64 ; .feature {feat} ; {mn} f3, {val if isinstance(val, str) else repr(val)}"
             reqs.append("cl " + line)
             meta.append((line, None))
     for (line, want), a in zip(meta, plug(reqs)):
